@@ -774,6 +774,8 @@ class Interp:
             if subpats:
                 for i, q in enumerate(subpats):
                     item = Term("%s.%d" % (vname, i), (val,), q.get("ty"))
+                    if isinstance(val, Term) and val.op == "optmark" and vname == "Some" and i == 0:
+                        item = optmark_payload(val)
                     dom = self.mode_domains.get((vname, str(i))) if "LexerMode" in path else None
                     if dom:
                         for _ok, _s in cur:
@@ -1856,13 +1858,27 @@ class Interp:
                             new.add(lid2)
                 return new
             changed |= note_changed(back1)
+            # loop-carried Option<mark>: optimistic invariant "Some(mark) => >= 1 char consumed since the mark",
+            # verified at every back-edge (first and generic iteration); dropped for a local that breaks it
+            marks = self.mark_locals(n)
+            nogap = set()
+
+            def gap_broken(states):
+                bad = set()
+                for s in states:
+                    fr = s.frames[fidx] if fidx < len(s.frames) else {}
+                    for lid2 in marks:
+                        if lid2 not in nogap and lid2 in fr and not self.mark_gap_ok(s, fr[lid2]):
+                            bad.add(lid2)
+                return bad
+            nogap |= gap_broken(back1)
             res_before = len(res)
             for _round in range(4):
                 del res[res_before:]
                 seen = set()
                 more = set()
                 for s in back1:
-                    w = self.widen(s, changed, n, fidx, moved)
+                    w = self.widen(s, changed, n, fidx, moved, nogap)
                     sig = self.widen_sig(w, fidx, assigned)
                     if sig in seen:
                         continue
@@ -1885,7 +1901,9 @@ class Interp:
                         # path itself is kept (as a truncated path) so that per-iteration rules see its events
                         res.append(Out("loopback", None, s2))
                 more_locals = note_changed([o2.st for o2 in res[res_before:] if o2.kind == "loopback"])
-                if not more and not more_locals:
+                more_gap = gap_broken([o2.st for o2 in res[res_before:] if o2.kind == "loopback"])
+                nogap |= more_gap
+                if not more and not more_locals and not more_gap:
                     break
                 # a cursor / local that only starts changing in later iterations: widen it too and redo
                 moved |= more
@@ -1895,7 +1913,23 @@ class Interp:
             res = self.prune_outs(res, l0, fidx, with_frame=True)
         return res
 
-    def widen(self, s, assigned, n, fidx, moved=None):
+    def mark_gap_ok(self, s, v):
+        """Is a loop-carried Option<mark> value None, or a mark with at least one char consumed since?"""
+        from . import lea_prims
+        if v.key() == NONE.key():
+            return True
+        mc = s.fields.get("_minc", {})
+        cur = s.cursors["main"].pos
+        q = None
+        if isinstance(v, Term) and v.op == "optmark":
+            q = v.args[0].v
+        elif isinstance(v, Enum) and v.variant == "Some" and v.args and isinstance(v.args[0], Tup) and v.args[0].items:
+            sn = lea_prims.snap_of(v.args[0].items[0])
+            if sn is not None and sn[1] == "main" and sn[3] == 0:
+                q = sn[2]
+        return q is not None and q in mc and cur in mc and mc[cur] - mc[q] >= 1
+
+    def widen(self, s, assigned, n, fidx, moved=None, nogap=()):
         w = s.clone()
         # locals assigned syntactically in the loop body live in the current frame; closures that the body
         # may call (closure values held in any frame) assign locals of their defining frame
@@ -1919,7 +1953,7 @@ class Interp:
                         j = w.fields.get("_jump", 0) + 1
                         p = j * 100000 - 50000
                         mc = dict(w.fields.get("_minc", {}))
-                        mc[p] = mc.get(w.cursors["main"].pos, 0)
+                        mc[p] = mc.get(w.cursors["main"].pos, 0) - (0 if lid in nogap else 1)
                         w.fields["_minc"] = mc
                         fr[lid] = Term("optmark", (Const("int", p),), None)
                     elif lid in self.snapshot_locals(n) and self.resnap(v, w) is not None:
@@ -1930,7 +1964,19 @@ class Interp:
                         fr[lid] = w.sym("loopvar", None)
         for cid in sorted(moved if moved is not None else ["main"]):
             if cid in w.cursors:
+                old_pos = w.cursors[cid].pos
                 self.jump(w, w.cursors[cid])
+                if cid == "main":
+                    # a token that was started exactly at the back-edge position still starts "here"
+                    from . import lea_prims
+                    new_pos = w.cursors[cid].pos
+                    for fld, v in list(w.cur_token.items()):
+                        sn = lea_prims.snap_of(v)
+                        if sn is not None and sn[2] == old_pos and sn[3] == 0 and isinstance(v, Enum):
+                            if sn[0] == "byte":
+                                w.cur_token[fld] = Enum(v.path, [Term("bin:Sub", (Term("source_len", (), "u32"), Term("remaining_len", (Const("str", sn[1]), Const("int", new_pos)), "u32")), "u32")])
+                            else:
+                                w.cur_token[fld] = Enum(v.path, [Term("char_offset", (Const("str", sn[1]), Const("int", new_pos)), "u32")])
         self.emit(w, "loop_widen", n, loop=n.get("id"))
         return w
 
@@ -2117,6 +2163,15 @@ def char_lit_pat(q):
     if q.get("k") == "Expr" and q["e"].get("k") == "Lit" and q["e"].get("lt") == "char":
         return q["e"]["v"]
     return None
+
+
+def optmark_payload(a):
+    """Loop-carried Option<mark>: when Some, a token-start mark taken at an earlier (virtual) position."""
+    p = a.args[0].v
+    return Tup([
+        Enum("text::ByteOffset", [Term("bin:Sub", (Term("source_len", (), "u32"), Term("remaining_len", (Const("str", "main"), Const("int", p)), "u32")), "u32")]),
+        Enum("text::CharOffset", [Term("char_offset", (Const("str", "main"), Const("int", p)), "u32")]),
+        Term("last_line", (Const("int", -p),), "LineIdx")])
 
 
 def strip_dt(n):
